@@ -66,6 +66,9 @@ def judge(ck, c, fields, oracle, direction='both'):
     if bad:
         ck.violation('oracle', bad, replay_dict(c))
         return False
+    # the sink's call pattern is part of the tie: number of write calls and of flushes, whenever both sides report them
+    if 'out' in fields:
+        fields = list(fields) + [f for f in ('wc', 'fl') if f not in fields and f in c['m'] and f in c['r']]
     diff = field_diff(c, fields)
     if not diff:
         return True
